@@ -307,3 +307,9 @@ Fixpoint closure_free (v : value) : bool :=
   end.
 
 Definition globals_ok (p : prog) : bool := forallb (fun xv => closure_free (snd xv)) (globals p).
+
+(* No namespace value is an Int (they are functions, constructors, enum values
+   and built-ins): `x += 1` on a name that is not a local variable fails with a
+   type error before it reaches Bindings::set_existing. *)
+Definition globals_noint (p : prog) : bool :=
+  forallb (fun xv => match snd xv with VInt _ => false | _ => true end) (globals p).
